@@ -163,10 +163,8 @@ def _replay_emergency(n_farms, owners, fixed_kinds=None):
         for k in range(n_farms):
             kind = fixed_kinds[k] if fixed_kinds else ['active', 'future', 'expired'][ch['farm%d_kind' % k]]
             funded, claimed = m['f%d_funded' % (k + 1)], m['f%d_claimed' % (k + 1)]
-            if kind == 'active':
-                start, end = ep - 1, ep + 5
-            elif kind == 'future':
-                start, end = ep + 1, ep + 5
+            if kind in ('active', 'future'):
+                start, end = m.get('f%d_start' % (k + 1), ep - 1 if kind == 'active' else ep + 1), ep + 5
             else:
                 start, end = 1, 3
             farms.append((_fid(k, n_farms), owners[k], LP1, 'uusd', funded, claimed, 1, start, end))
@@ -215,10 +213,14 @@ def _ob_emergency(n_farms, owners, fixed_kinds=None):
             claimed = I.sym('f%d_claimed' % (k + 1), hi=U128)
             I.assume(claimed <= funded)
             if kind == 'active':
-                start, end = simp(ep - 1), simp(ep + 5)
+                # started at or before the current epoch (the boundary `start == current` included), budget left, not expired
+                start, end = I.sym('f%d_start' % (k + 1), lo=1, hi=10 ** 6), simp(ep + 5)
+                I.assume(start <= ep)
                 I.assume(claimed < funded)
             elif kind == 'future':
-                start, end = simp(ep + 1), simp(ep + 5)
+                # starts after the current epoch (from the very next one)
+                start, end = I.sym('f%d_start' % (k + 1), lo=1, hi=10 ** 6 + 4), simp(ep + 5)
+                I.assume(smt.And(start > ep, start < end))
                 I.assume(claimed < funded)
             else:
                 start, end = 1, 3
